@@ -242,9 +242,11 @@ class Gen:
         self.counter += 1
         return f"{prefix}{self.counter}"
 
-    def assignment(self, quals=()):
+    def assignment(self, quals=(), allow_count=True):
         r = self.r
         c = r.random()
+        if not allow_count and c >= 0.8:
+            c = r.random() * 0.8
         tracking = None
         if c < 0.45:
             name = self.fresh("n")
@@ -273,6 +275,9 @@ class Gen:
         r = self.r
         f = r.choice(["tally", "sum", "counter", "push", "push", "push_distinct", "first", "every", "subtotal", "pop", "stackops"])
         q = list(quals)
+        if f in ("first", "every", "pop", "stackops"):
+            # vote-bearing or value-consuming: onmatch would make their own vote part of "the rest" (undefined order)
+            q = [x for x in q if x != "onmatch"]
         if f == "tally":
             return ("fn", "tally", [("hdr", r.choice(STRH + NUMH))], q)
         if f == "sum":
@@ -321,7 +326,7 @@ class Gen:
                 if not onm and not implicit_onmatch:
                     self.note_var(name, kind, tr)
             elif "assign" in f and c < 0.32:
-                node, name, kind, tr = self.assignment()
+                node, name, kind, tr = self.assignment(allow_count=False)
                 comps.append(("when", self.boolv(2), node))
             elif "agg" in f and c < 0.5:
                 comps.append(self.aggregate(onm))
